@@ -4,4 +4,6 @@ set -e
 cd "$(dirname "$0")/coq"
 { echo "-Q theories HV"; ls theories/*.v; } > _CoqProject
 coq_makefile -f _CoqProject -o Makefile > /dev/null
-timeout 3000 make -j16
+# -k: a file that fails to compile must not hide the others; every check re-runs make for
+# the modules it needs and fails closed if they do not build.
+timeout 3000 make -k -j16 || echo "setup: some files failed to build (the affected checks will report it)"
